@@ -241,11 +241,13 @@ structure Cfg where
   pfx : Str
   tids : List Str
   pids : List Str
-  rules : Rules
+  rules : Rules                 -- the rules file the process starts with
+  validate : Bool := true       -- rules files are validated when (re)loaded (`--no-validate` off)
 
 structure St where
   traces : AList Str TraceSt := []
   decided : List Str := []
+  reloaded : Option Rules := none    -- the rules of the last accepted reload, if there was one
 
 inductive Op where
   | classify (key : Str)
@@ -253,6 +255,7 @@ inductive Op where
   | lookup (name : Str)
   | span (path : Path) (key : Str) (env : Option Str) (ds : Str) (data : List (Str × Val))
   | decide (tid : Str)
+  | reload (r : Rules)            -- the rules file is rewritten and `Reload()` is called
 
 structure Decision where
   sel : Str
@@ -274,6 +277,7 @@ inductive Out where
   | span (tid : Str) (isRoot : Bool) (key env ds : Str) (memo missing : List Str) (late : Bool)
   | notrace
   | decision (d : Decision)
+  | reloaded (accepted : Bool)
   deriving DecidableEq, Repr
 
 /-- `Trace.AddSpan` + the root bookkeeping of `processSpan` -/
@@ -351,12 +355,25 @@ def collectSpan (s : St) (tid : Str) (sp : SpanSt) : St :=
     | none => { key := sp.key, env := sp.env, ds := sp.ds }
   { s with traces := AList.put s.traces tid (addSpan t sp) }
 
+/-- The rules in force: those of the last accepted reload, else the ones the process started with. -/
+def curRules (c : Cfg) (s : St) : Rules :=
+  match s.reloaded with
+  | some r => r
+  | none => c.rules
+
+/-- The configuration the code works with in state `s` (`fileConfig.rulesConfig` is replaced by `Reload`). -/
+def cur (c : Cfg) (s : St) : Cfg := { c with rules := curRules c s }
+
+/-- `newFileConfig` on reload: with validation on, a rules file without `__default__` is rejected
+(the generator keeps everything else valid); `Reload` then returns the error and changes nothing. -/
+def acceptRules (c : Cfg) (r : Rules) : Bool := !c.validate || (AList.get r defaultName).isSome
+
 def step (c : Cfg) (s : St) : Op → St × Out
   | .classify k => (s, .bool (isLegacyKey k))
   | .selkey k e d => (s, .name (samplerKey c.pfx k e d))
-  | .lookup n => (s, .looked (lookupSampler c.rules n) (lookupFields c.rules n))
+  | .lookup n => (s, .looked (lookupSampler (curRules c s) n) (lookupFields (curRules c s) n))
   | .span path key env ds data =>
-    match routeSpan c path key env ds data with
+    match routeSpan (cur c s) path key env ds data with
     | .nosampler => (s, .nosampler)
     | .nothing => (s, .nothing)
     | .panic => (s, .panic)
@@ -366,9 +383,20 @@ def step (c : Cfg) (s : St) : Op → St × Out
       (if late then s else collectSpan s tid sp,
        .span tid sp.isRoot sp.key sp.env sp.ds (AList.keys sp.pay.memo) sp.pay.missing late)
   | .decide tid =>
-    match AList.get s.traces tid with
+    if AList.get (curRules c s) defaultName = none then (s, .nosampler)   -- harness guard, as for spans
+    else match AList.get s.traces tid with
     | none => (s, .notrace)
-    | some t => ({ traces := AList.del s.traces tid, decided := tid :: s.decided }, decideTrace c t)
+    | some t => ({ s with traces := AList.del s.traces tid, decided := tid :: s.decided }, decideTrace (cur c s) t)
+  | .reload r =>
+    -- an accepted reload replaces the rules; the collector drops its cached samplers (reload signal),
+    -- buffered traces stay and are decided under the new rules
+    if acceptRules c r then ({ s with reloaded := some r }, .reloaded true) else (s, .reloaded false)
+
+/-- The rules a history leaves in force, read off the history alone: the last accepted reload. -/
+def lastAccepted (c : Cfg) (ops : List Op) : Rules :=
+  ops.foldl (fun r o => match o with
+    | .reload r' => if acceptRules c r' then r' else r
+    | _ => r) c.rules
 
 def run (c : Cfg) (ops : List Op) : St := ops.foldl (fun s o => (step c s o).1) {}
 
